@@ -117,7 +117,8 @@ def run_radar(bindir, script, sent, tag, mode, extra_args=()):
         while not srv.done_sending.is_set() and time.time() - t0 < 30:
             rd.pump(0.05)
         t0 = time.time()
-        while time.time() - t0 < 0.6:
+        # (radar takes one line per loop iteration: a bulk feed needs time in proportion)
+        while time.time() - t0 < 0.6 + (len(sent) / 40.0 if tag == "bulk" else 0):
             rd.pump(0.05)
         keys_before, keys_after, reconnected = [], [], 0
         if mode == "close":
@@ -219,6 +220,19 @@ def run(prop, tier, seed, rep):
         segs = [[list(l1 + head), "long"], [list(tail), rng.choice(("long", "short"))], [list(rest + l2 + l3), "short"]]
         raw = [l1, head + tail + rest, l2, l3]
         jobs.append((rng.choice(("1090", "radar")), segs, line_info(raw), "split-invalid", "hold"))
+    # sizes and counts: hundreds of lines in one segment, a line of tens of kilobytes between valid ones, a long run of
+    # empty lines
+    for i in range(2 if tier == "quick" else 20):
+        n = rng.choice((120, 300)) if i % 2 == 0 else 60
+        vs = valid_lines(rng, n)
+        raw = [b"*" + v.encode() + b";\n" for v in vs]
+        raw.insert(n // 2, b"*" + bytes(rng.choice(b"0123456789abcdefXYZ") for _ in range(rng.choice((5000, 40001)))) + b";\n")
+        raw.insert(n // 3, b"\n" * 200)
+        stream = b"".join(raw)
+        cut = rng.randrange(1, len(stream))
+        segs = [[list(stream[:cut]), "short"], [list(stream[cut:]), "short"]]
+        sent = line_info([x + b"\n" for x in stream.split(b"\n")[:-1]])
+        jobs.append(("1090" if i % 2 == 0 else "radar", segs, sent, "bulk", "hold"))
     # server disconnects: radar exits cleanly, or reconnects with --retry-tcp and keeps its aircraft
     for i in range(3 if tier == "quick" else 40):
         vs = valid_lines(rng, 4)
